@@ -302,7 +302,7 @@ impl Property for C06 {
                     names.push(format!("{}{}", a as char, b as char));
                 }
             }
-            for n in ["status", "_", "__", "_status", "status_", "a_b_c", "Z", "zz_", "playlistinfo", "PlayListInfo"] {
+            for n in ["", "status", "_", "__", "_status", "status_", "a_b_c", "Z", "zz_", "playlistinfo", "PlayListInfo", "Status", "listAll", "PING", "x_Y", " status", "status ", "status\n", "\u{a0}status"] {
                 names.push(n.to_string());
             }
             // non-ASCII characters inside a name: all of U+0080..U+07FF, then every 61st scalar value
